@@ -220,7 +220,7 @@ fn second_opinion(
     all: &smtref::ValEnv,
     rec: &mut Recorder,
 ) -> Result<(), Failure> {
-    if script.iter().any(|l| !l.is_ascii()) {
+    if script.iter().any(|l| !l.is_ascii() || l.chars().any(|c| c.is_control())) {
         rec.exclude("second opinion: non-ASCII symbol name");
         return Ok(());
     }
